@@ -8,7 +8,6 @@ Components (T2, model vs lys_compile_type_range / lys_parse_mem + lyd_value_vali
 Oracle (search, the library vs an independent Python reading of RFC 7950 9.2.4 / 9.4.4 / ABNF range-arg):
   RestrictRfc   chains whose texts are RFC-grammatical or carry ONE labelled departure from the grammar; the value set
                 of the derived type must be the intersection along the chain. Tags of the listed deviations:
-    range-juxtaposed-parts      parts not separated by | are accepted (1 50); the ascending and the base check skip them
     range-repeated-dots         1..9..3 accepted as 1..3
     range-max-touching          x..M | max accepted although the parts overlap
     range-dec64-sign-only       decimal64 boundary - or + accepted as 0
@@ -16,9 +15,8 @@ Oracle (search, the library vs an independent Python reading of RFC 7950 9.2.4 /
     range-touching-base         3..7 rejected under 1..5 | 6..9 (value set is a subset, no single base part holds it)
     range-kw-position           min not as first / max not as last boundary rejected (0..min, max..max)
     range-dec64-trailing-zeros  1.50 rejected as boundary of a decimal64 with fraction-digits 1
-Tag of the correspondence components (witness): the model answers OOB where the C code reads parts[] beyond the array
-    range-double-bar-overread   two | in a row (1||) in a restriction derived from a restricted type: parts_done exceeds
-                                the number of parts and the check against the base reads beyond the array
+Fixed in /repo and no longer tolerated (a reappearance is a plain violation; the generators keep producing the shapes):
+parts not separated by | (1 50; commit 72878af) and two | in a row (1||, heap over-read; commit b6c3725).
 """
 import re
 from fractions import Fraction
@@ -348,23 +346,11 @@ FIXED_DIRECT = [
 ]
 
 
-def oob_witness(line, model_out, impl_out):
-    """the model says the C code over-reads on this input: whatever the library printed (or a sanitizer crash) is an
-    instance of the listed finding"""
-    if model_out == "OOB":
-        return ("range-double-bar-overread", "parts_done > LY_ARRAY_COUNT(parts): the base check reads beyond the parts array; "
-                "library answered " + impl_out)
-    return None
-
-
 class RangeDirect(Comp):
     """lys_compile_type_range() on one restriction text with a hand-made base restriction vs Restrict.compile_range"""
     name = "rngd"
     driver = "t_restrict"
     slice = "restrict"
-
-    def witness(self, line, model_out, impl_out):
-        return oob_witness(line, model_out, impl_out)
 
     def rand_base(self, rng, ty):
         if rng.random() < 0.35:
@@ -417,9 +403,6 @@ class RangeChain(Comp):
     name = "chain"
     driver = "t_restrict"
     slice = "restrict"
-
-    def witness(self, line, model_out, impl_out):
-        return oob_witness(line, model_out, impl_out)
 
     def gen(self, rng, tier, scale=1.0):
         L = []
@@ -557,7 +540,7 @@ def value_of(ty, txt):
 
 # label -> (tag, what the library does that the RFC reading does not)
 LABELS = {
-    "nobar": ("range-juxtaposed-parts", "accept"),
+    "nobar": (None, "accept"),           # fixed by 72878af: accepting it again is a violation
     "dots2": ("range-repeated-dots", "accept"),
     "maxtouch": ("range-max-touching", "accept"),
     "signonly": ("range-dec64-sign-only", "accept"),
